@@ -162,6 +162,26 @@ def job_pullfail(payload):
     return out
 
 
+def damage_debug_line(data):
+    """DATA (an ELF64 LSB file) with the version of its first line number program set to 0xffff; None if there is no .debug_line."""
+    import struct
+    if data[:6] != b"\x7fELF\x02\x01":
+        return None
+    shoff, = struct.unpack_from("<Q", data, 0x28)
+    shentsize, shnum, shstrndx = struct.unpack_from("<HHH", data, 0x3a)
+    def sh(i):
+        return struct.unpack_from("<IIQQQQIIQQ", data, shoff + i * shentsize)
+    stroff = sh(shstrndx)[4]
+    for i in range(shnum):
+        h = sh(i)
+        name = data[stroff + h[0]:data.index(b"\0", stroff + h[0])]
+        if name == b".debug_line" and h[5] >= 6:
+            out = bytearray(data)
+            out[h[4] + 4:h[4] + 6] = b"\xff\xff"
+            return bytes(out)
+    return None
+
+
 def job_dwapi(payload):
     """Fallible calls of libzwerg-dw.h: opening things that are not (usable) DWARF files, and querying what does open.
     The driver's wrapper records for every call whether NULL/false came with an error object (and a message) and vice versa."""
@@ -186,6 +206,12 @@ def job_dwapi(payload):
     for n in (16, 52, 64, 65, 200, len(src) // 2, len(src) - 1):
         mk("trunc-%d" % n, src[:n])
     mk("ar", b"!<arch>\n" + b" " * 60)
+    # sample files whose .debug_line cannot be used (version field of the first line program damaged): what needs the line table fails
+    # at run time -- and libdw remembers the failure, so that asking AGAIN on the same handle fails in another way (no error code)
+    for g in good[:2]:
+        dmg = damage_debug_line(open(g, "rb").read())
+        if dmg is not None:
+            mk("badline-" + os.path.basename(g), dmg)
     # an ELF file without any DWARF
     from vf import dwgen
     mk("nodwarf.o", dwgen.build_elf(64, False, 62, [], [(b"f", 0x10, 4, 0x12, 0, 1)]))
@@ -203,7 +229,9 @@ def job_dwapi(payload):
                     if not r.get("msg"):
                         out["bad"].append(("open-failed-without-message", dict(path=os.path.basename(path))))
                     continue
-                for q in ("entry", "unit", "symbol", "entry attribute value", "abbrev entry", "symbol label", "entry @AT_decl_file", "name"):
+                # (each query twice on the same handle: the second failure of a cached libdw lookup is reported differently)
+                for q in ("entry", "unit", "symbol", "entry attribute value", "abbrev entry", "symbol label", "entry @AT_decl_file", "entry @AT_decl_file", "name",
+                          "entry ?AT_decl_file attribute ?AT_decl_file value", "entry (@AT_decl_file, @AT_call_file)", "entry @AT_decl_file"):
                     rr = d.run(q, inp="v:x", fuel=400000, max=20000, timeout=120)
                     out["dwapi_queries"] += 1
                     if rr.get("evbad"):
